@@ -490,7 +490,7 @@ def hex_stream(r, ck=None):
         lines.append(hexline(2, 0, struct.pack(">H", r.randrange(1, 0x1000))))
     elif mode == "linear":
         lines.append(hexline(4, 0, struct.pack(">H", r.randrange(1, 0x100))))
-    a = r.randrange(0, 0x4000)
+    a = r.choice([r.randrange(0, 0x4000), r.randrange(0, 0xff00)])
     for n in range(r.randrange(1, 12)):
         ln = r.choice([1, 4, 16, 16, 16, 32])
         c = r.random()
